@@ -18,8 +18,9 @@ PROPS["C08"] = dict(
         "rows of a result with zero columns are iterated up to 1000 (each costs no input byte; rows_count is only bounded by i32::MAX)",
     ],
     partial=[
-        "wellformed_roundtrip is proved for the primitives ([short], [int], [string], [bytes]/null) and the kinds READY, AUTHENTICATE, AUTH_CHALLENGE, AUTH_SUCCESS, RESULT/Void, RESULT/SetKeyspace (wellformed_roundtrip_partial); for ERROR, SUPPORTED, EVENT, RESULT/Rows, /Prepared, /SchemaChange it is checked per run by the harness oracle against an independent encoder, not proved",
-        "truncation_is_error is proved for [short], [int] and [string] (readString_truncation); for whole responses it is covered by the exhaustive truncation cases of the differential run",
+        "wellformed_roundtrip (proved for every response kind: ERROR with every DbError variant, READY, AUTHENTICATE, SUPPORTED, EVENT topology/status/schema, AUTH_CHALLENGE/SUCCESS, RESULT Void/Rows header/SetKeyspace/Prepared/SchemaChange, plus wellformed_roundtrip_rows for result metadata, rows count and raw rows) excludes by its WfResponse hypothesis: EVENT CLIENT_ROUTES_CHANGE (host ids travel as UUID strings) and column types sent as custom type strings (vector / frozen types); the frame header + body extensions round trip is not proved - all three are checked per run by the harness oracle against an independent encoder",
+        "truncation_is_error is proved for the primitives and, at response level, for READY, AUTHENTICATE, AUTH_CHALLENGE, AUTH_SUCCESS, RESULT/Void, RESULT/SetKeyspace (truncation_is_error_partial); kinds with loops are covered by the exhaustive truncation cases of the differential run; a Rows body cut inside the rows region legitimately decodes and yields a per-row error on iteration",
         "alloc ghost counts capacity REQUESTS (with_capacity / reserve) in element slots, not bytes copied while parsing (those are bounded by the bytes consumed)",
+        "not modelled: the tablets routing payload decoder (RawTablet::from_custom_payload) and a steps ghost for the custom type parser (its linear cost after fix 3ffdc84 is covered by the hang watchdog on nested parameter-count mismatches up to depth 127)",
     ],
 )
